@@ -25,6 +25,19 @@ Theorem C15_ns_parametric : forall numtab x ns',
 Proof. intros numtab x ns' H. split; now rewrite erase_now_retag. Qed.
 Print Assumptions C15_ns_parametric.
 
+(* the same with the recorded errors made explicit.  The model is of a load with an empty error mask:
+   handleError appends the error to Collada.errors and re-raises, so the recorded list is empty when the load
+   completes and holds exactly the error that aborted it otherwise. *)
+Definition recorded_errors {A} (o : outcome A) : list exn := match o with Ok _ => [] | Raise e => [e] end.
+Definition loaded_view {A} (o : outcome A) : option A := match o with Ok v => Some v | Raise _ => None end.
+
+Theorem C15_ns_parametric_errors : forall numtab x ns',
+  uses_ns ns' x = false ->
+  recorded_errors (load_doc numtab (erase_now (retag_doc ns' x))) = recorded_errors (load_doc numtab (erase_now x)) /\
+  loaded_view (load_doc numtab (erase_now (retag_doc ns' x))) = loaded_view (load_doc numtab (erase_now x)).
+Proof. intros numtab x ns' H. now rewrite erase_now_retag. Qed.
+Print Assumptions C15_ns_parametric_errors.
+
 (* renaming is the identity when the URI is the document's own *)
 Theorem C15_retag_same : forall x, retag_doc (xns x) x = x.
 Proof. intro x. apply retag_same. Qed.
